@@ -16,8 +16,22 @@ def count_reads(prog):
     for i in prog:
         if i["op"] in READ_OPS or i["op"].startswith("bd") or i["op"].startswith("brd"):
             n += 1
-        if i["op"] in ("get", "getd") and not (len(i["a"]) >= 2 and i["a"][1] == ["d", "db"]):
-            n += 1
+        if i["op"] in ("get", "getd"):
+            own = len(i["a"]) >= 2 and i["a"][1] == ["d", "db"]
+            if not own:
+                n += 1
+            else:
+                # the chip's own memory: initial contents are inputs too (one per address read before written);
+                # the fixed-slot calling convention's cells 500..511 are always written first
+                ad = i["a"][2] if len(i["a"]) >= 3 else None
+                if ad and ad[0] == "v" and isinstance(ad[1], list) and len(ad[1]) == 2 and ad[1][1] == 1 and ad[1][0] >= 500:
+                    pass
+                elif ad and ad[0] == "r":
+                    n += 3   # address computed at run time: several cells
+                else:
+                    n += 1
+        if i["op"] in ("pop", "peek"):
+            pass
     return n
 
 
@@ -36,17 +50,29 @@ def make_case(pa, pb, maxn=4, fuel=4096, dom=None, maxlevel=0):
 CFG = "SPECIFICATION Spec\nCHECK_DEADLOCK FALSE\n"
 
 
+_SPEC = {"name": "Equiv2"}
+
+
 def _run_batch(d, cases, workers, timeout):
     os.makedirs(d, exist_ok=True)
+    spec = _SPEC["name"]
     with open(os.path.join(d, "cases.json"), "w") as f:
         json.dump(cases, f)
-    with open(os.path.join(d, "Equiv2.cfg"), "w") as f:
+    with open(os.path.join(d, spec + ".cfg"), "w") as f:
         f.write(CFG)
-    return run_tlc(os.path.join(SPEC, "Equiv2.tla"), os.path.join(d, "Equiv2.cfg"), d, workers=workers,
+    return run_tlc(os.path.join(SPEC, spec + ".tla"), os.path.join(d, spec + ".cfg"), d, workers=workers,
                    timeout=timeout, heap="3g")
 
 
-def run_cases(name, cases, batches=4, workers=4, timeout=240, single_timeout=40):
+def run_cases(name, cases, batches=4, workers=4, timeout=240, single_timeout=40, spec="Equiv2"):
+    _SPEC["name"] = spec
+    try:
+        return _run_cases(name, cases, batches, workers, timeout, single_timeout)
+    finally:
+        _SPEC["name"] = "Equiv2"
+
+
+def _run_cases(name, cases, batches=4, workers=4, timeout=240, single_timeout=40):
     """cases: list of Equiv2 case records.  Returns (verdicts, stats): verdicts[k] is the set of
     verdict strings of case k (empty set = explored completely inside its bounds, no verdict);
     'INCONCLUSIVE:TIMEOUT' marks cases whose exploration did not finish."""
